@@ -257,3 +257,159 @@ class LockSet:
     def unprotected(self, fname):
         f = self.pdb.fn(fname)
         return self.summ.get((f.unit, f.name), {})
+
+
+# ---------------------------------------------------------------- lock order
+def _held_at_calls(fn, pdb, retsets=None):
+    """for every call instruction: set of lock names (base expr, field) held when it executes (may-held, over all states)"""
+    held_at = {}
+
+    def classify(inst, E, st):
+        if inst.op != "call":
+            return None
+        if inst.callee in LOCK_FUNCS:
+            ln = lock_name(fn, inst)
+            mode = LOCK_FUNCS[inst.callee]
+            held = frozenset(k for k, v in st.items() if isinstance(k, str) and k.startswith("K|") and v != "U")
+            if mode != "U":
+                held_at.setdefault(inst.id, set()).update(held)
+            return ["=K|%d:%s" % (_intern(ln), mode)]
+        held = frozenset(k for k, v in st.items() if isinstance(k, str) and k.startswith("K|") and v != "U")
+        held_at.setdefault(inst.id, set()).update(held)
+        return None
+    es.count_effects(fn, pdb, classify, retsets)
+    return {k: {_LOCKS[int(x.split("|")[1])] for x in v} for k, v in held_at.items()}
+
+
+_LOCKS = []
+_LOCKIDX = {}
+
+
+def _intern(ln):
+    if ln not in _LOCKIDX:
+        _LOCKIDX[ln] = len(_LOCKS)
+        _LOCKS.append(ln)
+    return _LOCKIDX[ln]
+
+
+def _subst(e, fn_args):
+    """rewrite ('arg',k) in expression e by the caller's actual expressions"""
+    if not isinstance(e, tuple):
+        return e
+    if e[0] == "arg":
+        return fn_args[e[1]] if e[1] < len(fn_args) else ("?",)
+    return tuple(_subst(x, fn_args) if isinstance(x, tuple) else x for x in e)
+
+
+def _resolve_fields(fn, e, at):
+    """replace loads of fields of local structs (allocas) by the value stored there that reaches `at`"""
+    if not isinstance(e, tuple):
+        return e
+    if e[0] == "load" and isinstance(e[1], tuple) and e[1][0] == "fld" and isinstance(e[1][1], tuple) and e[1][1][0] == "alloca":
+        st = vf.reaching_store(fn, e[1], at)
+        if st is None:
+            # any store to that field (structs initialised once)
+            ss = [i for i in fn.all_insts() if i.op == "store" and vf.expr(fn, i["ptr"]) == e[1]]
+            st = ss[0] if len(ss) == 1 else None
+        if st is not None:
+            return _resolve_fields(fn, vf.expr(fn, st["val"]), at)
+        return e
+    return tuple(_resolve_fields(fn, x, at) if isinstance(x, tuple) else x for x in e)
+
+
+class LockOrder:
+    """acquisition summaries and order edges, interprocedural, callback-aware"""
+
+    def __init__(self, pdb, units, retsets=None):
+        self.pdb = pdb
+        self.units = set(units)
+        self.retsets = retsets
+        self._acq = {}
+        self._hof = {}
+        self._held = {}
+        self._busy = set()
+
+    def held(self, fn):
+        k = (fn.unit, fn.name)
+        if k not in self._held:
+            self._held[k] = _held_at_calls(fn, self.pdb, self.retsets)
+        return self._held[k]
+
+    def hof(self, fn):
+        """[(fp_param, [arg exprs passed], held locks)] : fn (transitively) calls its function-pointer parameter"""
+        k = (fn.unit, fn.name)
+        if k in self._hof:
+            return self._hof[k]
+        if k in self._busy:
+            return []
+        self._busy.add(k)
+        out = []
+        held = self.held(fn)
+        for c in fn.calls():
+            h = held.get(c.id, set())
+            if c.callee is None:
+                fe = vf.expr(fn, c["fptr"])
+                if fe[0] == "arg":
+                    out.append((fe[1], [vf.expr(fn, a) for a in c.args], set(h)))
+            else:
+                g = self.pdb.resolve(fn, c.callee)
+                if g is None or g.unit not in self.units:
+                    continue
+                actual = [vf.expr(fn, a) for a in c.args]
+                for (fp, args, gh) in self.hof(g):
+                    if fp < len(actual) and actual[fp][0] == "arg":
+                        out.append((actual[fp][1], [_subst(a, actual) for a in args],
+                                    set(h) | {(_subst(b, actual), f) for (b, f) in gh}))
+        self._busy.discard(k)
+        self._hof[k] = out
+        return out
+
+    def acquisitions(self, fn, depth=0):
+        """locks fn acquires (transitively), as (base expr over fn's params, field, mode, held-before set)"""
+        k = (fn.unit, fn.name)
+        if k in self._acq:
+            return self._acq[k]
+        if k in self._busy or depth > 8:
+            return []
+        self._busy.add(k)
+        out = []
+        held = self.held(fn)
+        for c in fn.calls():
+            h = held.get(c.id, set())
+            if c.callee in LOCK_FUNCS:
+                if LOCK_FUNCS[c.callee] != "U":
+                    b, f = lock_name(fn, c)
+                    b = _resolve_fields(fn, b, c)
+                    out.append((b, f, LOCK_FUNCS[c.callee], set(h), c))
+                continue
+            if c.callee is None:
+                continue
+            g = self.pdb.resolve(fn, c.callee)
+            if g is None or g.unit not in self.units:
+                continue
+            actual = [_resolve_fields(fn, vf.expr(fn, a), c) for a in c.args]
+            for (b, f, mode, gh, site) in self.acquisitions(g, depth + 1):
+                out.append((_subst(b, actual), f, mode, set(h) | {(_subst(x, actual), y) for (x, y) in gh}, c))
+            # callbacks handed to a higher-order callee
+            for (fp, args, gh) in self.hof(g):
+                if fp < len(actual) and actual[fp][0] == "g":
+                    cb = self.pdb.resolve(fn, actual[fp][1])
+                    if cb is None:
+                        continue
+                    cbargs = [_subst(a, actual) for a in args]
+                    hh = set(h) | {(_subst(x, actual), y) for (x, y) in gh}
+                    for (b, f, mode, ch, site) in self.acquisitions(cb, depth + 1):
+                        b2 = _resolve_fields(fn, _subst(b, cbargs), c)
+                        out.append((b2, f, mode, hh | {(_resolve_fields(fn, _subst(x, cbargs), c), y) for (x, y) in ch}, c))
+        self._busy.discard(k)
+        self._acq[k] = out
+        return out
+
+    def edges(self, fn):
+        """order edges (held lock -> acquired lock) inside fn, in terms of fn's own expressions"""
+        es_ = []
+        for (b, f, mode, h, site) in self.acquisitions(fn):
+            for (hb, hf) in h:
+                if (hb, hf) != (b, f):
+                    es_.append(((hb, hf), (b, f), site))
+        return es_
